@@ -31,10 +31,10 @@ func (c16) Info() core.Info {
 		ID:    "C16",
 		Title: "Tokens carry their true offset and text; spacing between tokens is irrelevant",
 		Level: "exploration",
-		Rule: "(1) ALL strings of length <= 6 (thorough: 7) over the symbol alphabet {a 1 space ' \" = ! < + & ( ,}, over {k . ` ^ ~ > - * | ) [ ;} and over {a space ' \" ` = ( , 1} (all three quote characters together); (2) all sequences of <= 4 (thorough: 5) tokens from a 24-token pool (keywords, word operators, names, numbers, quoted literals, every symbol class) rendered with every choice of 0/1/2 spaces between neighbours wherever the reference lexer says the space is optional. " +
+		Rule: "(1) ALL strings of length <= 6 (thorough: 7) over the symbol alphabet {a 1 space ' \" = ! < + & ( ,}, over {k . ` ^ ~ > - * | ) [ ;} and over {a space ' \" ` = ( , 1} (all three quote characters together) and over {a space TAB LF CR ' = 1 ,} (every kind of white space); (2) all sequences of <= 4 (thorough: 5) tokens from a 24-token pool (keywords, word operators, names, numbers, quoted literals, every symbol class) rendered with every choice of 0/1/2 spaces between neighbours wherever the reference lexer says the space is optional. " +
 			"Oracle: an independent reference lexer written from the README token classes: same sequence of kinds and texts; every token's text is found at its reported offset (case-folded for words; quoted literals: the exact bytes between the quotes); two-character operators are one token; spacing variants give identical kind/text sequences. Non-trivial: >= 2 tokens. Distinct: the input string.",
 		Assumptions: []string{
-			"only the space character is spacing", "after an unterminated quote only the tokens before it are judged",
+			"white space is the space, tab, line feed and carriage return characters", "after an unterminated quote only the tokens before it are judged",
 			"a lone ^ or ~ is no token of the language (the engine drops it): such inputs are judged on the per-token offset/text invariant only",
 			"a back-quoted literal may be reported as a string or as a name",
 		},
@@ -84,12 +84,12 @@ func classifyWord(w string) string {
 func refLex(q string) (toks []rtok, unterminated, odd bool) {
 	i := 0
 	isSep := func(c byte) bool {
-		return strings.IndexByte(" '\"`~^=!*+-/><&|()[],;", c) >= 0
+		return strings.IndexByte(" \t\n\r'\"`~^=!*+-/><&|()[],;", c) >= 0
 	}
 	for i < len(q) {
 		c := q[i]
 		switch {
-		case c == ' ':
+		case c == ' ' || c == '\t' || c == '\n' || c == '\r':
 			i++
 		case c == '\'' || c == '"' || c == '`':
 			j := strings.IndexByte(q[i+1:], c)
@@ -265,6 +265,9 @@ const c16AlphaB = "k.`^~>-*|)[;"
 // all three quote characters together: each is plain content inside a literal opened by another
 const c16AlphaC = "a '\"`=(,1"
 
+// every kind of white space next to words, operators and quotes
+const c16AlphaD = "a \t\n\r'=1,"
+
 var c16Pool = []string{
 	"select", "where", "key", "value", "and", "or", "in", "between", "'a'", "\"b c\"", "12", "1.5", "f", "(", ")", "[", "]", ",", "=", "!=", ">=", "+", "!", "&",
 }
@@ -278,7 +281,7 @@ type c16Unit struct {
 
 func c16Units(t core.Tier) []c16Unit {
 	var us []c16Unit
-	for _, al := range []string{c16AlphaA, c16AlphaB, c16AlphaC} {
+	for _, al := range []string{c16AlphaA, c16AlphaB, c16AlphaC, c16AlphaD} {
 		us = append(us, c16Unit{fam: "short", alpha: al})
 		for i := 0; i < len(al); i++ {
 			for j := 0; j < len(al); j++ {
